@@ -943,12 +943,18 @@ func (x *fnv) execFor(s *State, st *ast.ForStmt, label string) (out flows) {
 			out.brk = append(out.brk, j)
 		}
 	}
-	end := x.h.Merge(ends)
-	if end != nil && st.Post != nil {
-		pf := x.execStmt(end, st.Post)
-		end = pf.next
-	}
-	if end != nil {
+	// each way of reaching the end of the body is checked on its own: smaller queries than one merged state
+	for _, end := range ends {
+		if end == nil {
+			continue
+		}
+		if st.Post != nil {
+			pf := x.execStmt(end, st.Post)
+			end = pf.next
+		}
+		if end == nil {
+			continue
+		}
 		x.checkInvariants(end, lp, "step", st.Body.Rbrace)
 		x.loopFrame(headSnap, end, lp, regions, st.Body.Rbrace)
 		if v0 != nil {
@@ -1055,9 +1061,11 @@ func (x *fnv) execRange(s *State, st *ast.RangeStmt, label string) (out flows) {
 				out.brk = append(out.brk, j)
 			}
 		}
-		end := x.h.Merge(ends)
-		if end != nil {
-			lp.role["$i"] = Value{T: it, Term: c.Add(i, c.Int(1))}
+		lp.role["$i"] = Value{T: it, Term: c.Add(i, c.Int(1))}
+		for _, end := range ends {
+			if end == nil {
+				continue
+			}
 			x.checkInvariants(end, lp, "step", st.Body.Rbrace)
 			x.loopFrame(headSnap, end, lp, regions, st.Body.Rbrace)
 		}
@@ -1170,12 +1178,14 @@ func (x *fnv) execRangeMap(s *State, st *ast.RangeStmt, label string, lp *loopCt
 			out.brk = append(out.brk, j)
 		}
 	}
-	end := x.h.Merge(ends)
-	if end != nil {
-		lp.seen = c.Store(seenH, k, nil, c.True())
-		lp.role["$n"] = Value{T: it, Term: c.Add(n, c.Int(1))}
-		delete(lp.role, "$key")
-		delete(lp.role, "$val")
+	lp.seen = c.Store(seenH, k, nil, c.True())
+	lp.role["$n"] = Value{T: it, Term: c.Add(n, c.Int(1))}
+	delete(lp.role, "$key")
+	delete(lp.role, "$val")
+	for _, end := range ends {
+		if end == nil {
+			continue
+		}
 		x.checkInvariants(end, lp, "step", st.Body.Rbrace)
 		x.loopFrame(headSnap, end, lp, regions, st.Body.Rbrace)
 	}
